@@ -803,7 +803,9 @@ def gen_script(rng, impl, nops, focus, scripted=None):
         bsz = orc.bs()
         zr, _ = runs_of(s.B)
         kind = rng.weighted([("unaligned", 2), ("header", 2), ("bitmap", 2), ("short", 2 if orc.live else 0),
-                             ("strictfree", 4 if orc.cfg[1] else 0)])
+                             ("strictfree", 4 if orc.cfg[1] else 0), ("edge", 5)])
+        if kind == "edge":
+            return edge_request()
         if kind == "short":  # less than one block: nothing can be released
             return do("free %d %d invalid" % (rng.choice(sorted(orc.live)), rng.choice([0, 1, bsz - 1])))
         if kind == "unaligned":
@@ -824,6 +826,164 @@ def gen_script(rng, impl, nops, focus, scripted=None):
                     return do("free %d %d invalid" % (a, orc.live[a] + bsz))
         o, l = rng.choice(zr)
         return do("free %d %d invalid" % (o * bsz, min(l, rng.range(1, 3)) * bsz))
+
+
+    PAST = [1, 1, 7, 8, 9, 63, 64, 65]   # blocks behind the end: inside the last byte's slack, at byte / word boundaries
+
+    def edge_request():
+        """one INVALID request aimed at a boundary of the addressable space [0, bmlen*8 blocks): the range starts inside
+        and ends 1..65 blocks behind the end / starts exactly at the end / starts beyond it / touches the allocator's own
+        bitmap blocks or the header from either side; as a release, as the shrinking branch of reallocate, as a status
+        query; plus dry-run probes of _fsm_set_bit_status_lw at the same offsets (model against implementation)"""
+        s = orc.st
+        bsz = orc.bs()
+        nb = s.nbits()
+        E = nb * bsz
+        bo, bl, hl = s.M[0], s.M[1], s.M[2]
+        d = rng.choice(PAST)
+        k = rng.choice([1, 1, 2, 7, 8, 63, 64])
+        tail = rng.choice([0, 0, 0, 1, bsz - 1])       # stray bytes behind the last whole block of the length
+        kind = rng.weighted([("in-past", 6), ("at-end", 3), ("beyond", 2), ("far", 1), ("bitmap", 3), ("header", 2),
+                             ("shrink", 3), ("query", 2), ("probe", 3)])
+        orc.count("edge request: " + kind)
+        if kind == "in-past":
+            a = E - k * bsz
+            if a < 0:
+                a = E - bsz
+            return do("free %d %d invalid" % (a, E - a + d * bsz + tail))
+        if kind == "at-end":
+            return do("free %d %d invalid" % (E, d * bsz + tail))
+        if kind == "beyond":
+            return do("free %d %d invalid" % (E + rng.choice(PAST) * bsz, d * bsz + tail))
+        if kind == "far":
+            return do("free %d %d invalid" % (rng.choice([1 << 40, 1 << 50, (1 << 62) - (1 << 20)]) // bsz * bsz, d * bsz))
+        if kind == "bitmap":   # the allocator's own blocks, approached from the left / from the right / covered
+            o, n = rng.choice([(bo - k * bsz, k + 1), (bo - bsz, 1 + bl // bsz + 1), (bo + bl - bsz, 1 + k), (bo + bl - bsz, 1),
+                               (bo, bl // bsz), (bo + bsz * rng.below(max(1, bl // bsz)), 1)])
+            if o < 0:
+                o, n = bo, 1
+            return do("free %d %d invalid" % (o, n * bsz + tail))
+        if kind == "header":
+            hb = hl // bsz
+            o, n = rng.choice([(0, 1), (0, hb), (0, hb + k), ((hb - 1) * bsz, 1), ((hb - 1) * bsz, 1 + k)])
+            return do("free %d %d invalid" % (o, n * bsz + tail))
+        if kind == "shrink":   # reallocate to fewer blocks releases [addr + nlen, addr + olen)
+            a = max(E - k * bsz, 0)
+            ob = (E - a) // bsz + d
+            nlb = rng.choice([1, max(1, (E - a) // bsz), max(1, ob - 1)])
+            if nlb >= ob:
+                nlb = ob - 1
+            return do("realloc %d %d %d %d invalid" % (nlb * bsz - rng.choice([0, 0, 1]), a, ob * bsz, flags() & ~F_SOLID))
+        if kind == "query":
+            a = max(E - k * bsz, 0) if rng.chance(2, 3) else E
+            return do("chk %d %d %d no" % (a, E - a + d * bsz, rng.below(2)))
+        # probe: the guard itself, both sides of the boundary (rc compared with the model's set_bit_status)
+        off = max(0, nb - rng.choice([0, 1, 2, 7, 8, 63, 64, 65]))
+        ln = nb - off + rng.choice([-1, 0, 0] + PAST)
+        if ln < 0:
+            ln = 0
+        return do("sbs %d %d %d %d" % (off, ln, rng.below(2), rng.below(2)))
+
+    def grow_once():
+        """an allocation that no free run can hold: the bitmap doubles and moves; -> ok"""
+        s = orc.st
+        bsz = orc.bs()
+        zr = runs_of(s.B)[0]
+        mx = max([l for _, l in zr] + [0])
+        need = mx + rng.choice([1, 1, 2, 64, 1000])
+        ok, _, _ = alloc_line(need * bsz - rng.choice([0, 0, 1]), 0, rng.choice([F_NOOVER | F_NOSTATS, F_NOOVER | F_NOSTATS, 0, F_NOSTATS]),
+                              write=rng.chance(1, 3))
+        return ok
+
+    def take_all(limit, ff):
+        """every free run is taken by an exact-fit request, lowest first; the region that starts right behind the bitmap area
+        and (ff) gets a pattern whose first byte is 0xff; -> (ok, full)"""
+        bsz = orc.bs()
+        for _round in range(3):
+            zr = runs_of(orc.st.B)[0]
+            if not zr:
+                return True, True
+            if len(zr) > limit:
+                return True, False
+            for o, l in zr:
+                if run_at(o) != (o, l):
+                    continue
+                ok, a, _ = alloc_line(l * bsz, o * bsz, F_NOOVER | F_NOSTATS | F_NOEXT, write=False)
+                if not ok:
+                    return False, False
+                if a is None:
+                    continue
+                if a == orc.st.M[0] + orc.st.M[1] and ff:
+                    seedc[0] = ff_seed(seedc[0] + 1)
+                    if not do("w %d %d %d" % (a, min(orc.live[a], rng.choice([1, bsz, WCAP])), seedc[0])):
+                        return False, False
+                elif rng.chance(1, 3):
+                    seedc[0] += 1
+                    if not do("w %d %d %d" % (a, min(orc.live[a], WCAP), seedc[0])):
+                        return False, False
+        return True, not runs_of(orc.st.B)[0]
+
+    def check_all_patterns(limit=8):
+        ks = sorted(orc.pat)
+        first = [a for a in ks if a == orc.st.M[0] + orc.st.M[1]]
+        for a in (first + ks[-2:] + ks[:limit])[:limit]:
+            if a in orc.pat and not read_pat(a):
+                return False
+        return True
+
+    def do_edge_round():
+        """the boundaries of the addressable space with live data on both sides of them: (optionally right after a bitmap
+        growth) every free block is taken, so the last block of the space and the block behind the bitmap area belong to
+        live regions carrying patterns; then a burst of invalid requests; after it nothing may have changed: state lines,
+        bytes of the live regions, and a one-block request without extension must still find nothing"""
+        bsz = orc.bs()
+        if rng.chance(1, 4) and orc.st.M[1] < 2 * PAGE and not grow_once():
+            return False
+        ok, full = take_all(24, True)
+        if not ok:
+            return False
+        for _ in range(rng.range(4, 9)):
+            if not edge_request():
+                return False
+        if not check_all_patterns():
+            return False
+        if full:
+            orc.count("edge round on a full file")
+            ok, _, _ = alloc_line(bsz, rng.choice([0, orc.st.nbits() * bsz - bsz]), F_NOOVER | F_NOSTATS | F_NOEXT)
+            return ok
+        return True
+
+    def do_full_close():
+        """close with an EMPTY free-extent tree (_fsm_close then writes no header and does not trim) after 0..2 bitmap
+        relocations, with / without a sync in between; the next open must find the same bitmap area, the same allocated
+        blocks, the same file size; the header is read back before and after (against the model)"""
+        bsz = orc.bs()
+        for _ in range(rng.weighted([(0, 3), (1, 5), (2, 1)])):
+            if orc.st.M[1] < EDGE_CAP and not grow_once():
+                return False
+        if rng.chance(1, 4) and not do("sync"):      # a sync BEFORE the space is used up says nothing about the close
+            return False
+        ok, full = take_all(40, rng.chance(1, 2))
+        if not ok:
+            return False
+        if not full:
+            return True
+        if rng.chance(1, 4) and not do("sync"):
+            return False
+        if not do("hdr"):
+            return False
+        if not do("close") or not do("hdr"):
+            return False
+        st2, nt2, mm2 = rng.chance(1, 2), rng.chance(1, 3), rng.chance(1, 2)
+        if not do("reopen %d %d %d" % (st2, nt2, mm2)):
+            return False
+        for a in sorted(orc.live, key=lambda x: (x * 2654435761) & 0xffff)[:4]:
+            if not do("chk %d %d 1 yes" % (a, orc.live[a])):
+                return False
+        if not check_all_patterns(4):
+            return False
+        ok, _, _ = alloc_line(bsz, 0, F_NOOVER | F_NOSTATS | F_NOEXT)    # the file was full
+        return ok
 
     def do_chk():
         s = orc.st
@@ -855,6 +1015,16 @@ def gen_script(rng, impl, nops, focus, scripted=None):
         return True
 
     wa, wf = (10, 7) if focus == "C10" else (9, 8)
+    # rounds aimed at the boundaries of the addressable space (C10) and at close/reopen of a full file (C11): most scripts
+    # run one early - while the bitmap is short (the model is linear in its length) - and may run more later
+    w_edge, w_full = ((3, 1) if focus == "C10" else (1, 3))
+    if mode == "mixed" and rng.chance(1, 2) and not os.environ.get("FSM_NOROUNDS"):
+        first = rng.weighted([("edge", w_edge), ("full", w_full)])
+        for _ in range(rng.below(6)):
+            if not do_alloc():
+                return lines, outs, orc, len(lines) - 1
+        if not (do_edge_round() if first == "edge" else do_full_close()):
+            return lines, outs, orc, len(lines) - 1
     if mode == "solid" and not do_solid_round():
         return lines, outs, orc, len(lines) - 1
     if mode == "aligned" and not do_layout():
@@ -865,10 +1035,15 @@ def gen_script(rng, impl, nops, focus, scripted=None):
         op = rng.weighted([("alloc", wa), ("free", wf), ("freen", 3), ("realloc", 4), ("invalid", 2), ("chk", 2),
                            ("reopen", 1 if focus == "C10" else 2), ("sync", 1), ("clear", 1 if rng.chance(1, 4) else 0),
                            ("freeall", 1 if rng.chance(1, 3) else 0),
-                           ("solidround", 2 if mode == "solid" else 0), ("layout", 2 if mode == "aligned" else 0)])
+                           ("solidround", 2 if mode == "solid" else 0), ("layout", 2 if mode == "aligned" else 0),
+                           ("edgeround", 1 if rng.chance(w_edge, 12) and not os.environ.get("FSM_NOROUNDS") else 0), ("fullclose", 1 if rng.chance(w_full, 12) and not os.environ.get("FSM_NOROUNDS") else 0)])
         ok = True
         if op == "solidround":
             ok = do_solid_round()
+        elif op == "edgeround":
+            ok = do_edge_round()
+        elif op == "fullclose":
+            ok = do_full_close()
         elif op == "layout":
             ok = do_layout()
         elif op == "alloc":
@@ -1030,7 +1205,7 @@ def account(run, focus, variant, results):
                 run.cov.setdefault("other_property_signals", {})
                 run.cov["other_property_signals"][v["property"]] = run.cov["other_property_signals"].get(v["property"], 0) + 1
                 continue
-            run.violation({"script": v["script"], "kind": "fsm-script", "at": len(v["script"]) - 1}, v["note"])
+            run.violation({"script": v["script"], "kind": "fsm-script", "origin": v["kind"], "at": len(v["script"]) - 1}, v["note"])
     if nm > 1:
         run.broken.append("T2 correspondence: %d scripts differ in total" % nm)
 
